@@ -32,6 +32,7 @@ NOTES = {
     'C03_7bfe1eb': 'the violation depends on how many decode threads are still running when the next one starts (timing): it did not repeat in the fresh process of the confirmation step, which the supervisor reports as MACHINERY, not as a verdict',
     'C05_bebe3c4': 'a custom font whose 0x20 is visible: outside the built-in fonts the optimiser family of C12 enumerates, no family in C05 (its round trips use the lossless save path)',
     'C05_79a202b': 'no file of the fault menu had more than 200 rows; a 201 row file is one of the re-save seeds since',
+    'C05_7277de1': 'the refusal of odd iCE Draw widths was tolerated by the C11 check as "the record cannot carry the width" (true for .bin only); C11 requires the save to succeed for .idf since - reported there',
     'C20_59866c9': 'below the 0.5 s CPU limit in the release profile of the checks, recorded as such in the fixed line',
 }
 
@@ -76,8 +77,8 @@ for prop, commit, what in fixed:
             r = {'result': 'reverse patch does not compile on the current tree'}
         else:
             o = subprocess.run(['./check', prop, '--tier', 'quick'], capture_output=True, text=True)
-            sigs = re.findall(r'signature=(\S+(?: \S+)*?) cases=', o.stdout + o.stderr)
-            r = {'exit': o.returncode, 'signatures': sigs[:6], 'result': 'caught' if o.returncode == 1 and sigs else ('machinery' if o.returncode == 2 else 'not caught')}
+            sigs = re.findall(r'signature=(.*?) cases=', o.stdout + o.stderr)
+            r = {'exit': o.returncode, 'signatures': sigs[:6], 'result': 'caught' if o.returncode == 1 else ('machinery' if o.returncode == 2 else 'not caught')}
     finally:
         subprocess.run(['git', '-C', '/repo', 'checkout', '--', '.'])
         subprocess.run(['git', '-C', '/repo', 'clean', '-fdq', 'src'])
